@@ -14,3 +14,5 @@ def check(rep, tier):
     rep.run(rules_scalar.run, rep, tier, adjoint=True)     # forward rules at ties / kinks: the factor equals the reverse rule's
     from contracts import rules_numeric as _rn
     rep.run(_rn.run_near_tie, rep)
+    from contracts import rules_shape as _rs2
+    rep.run(_rs2.run_linalg, rep, tier)       # tangent shapes of the linalg rules (forward rules the module registers)
